@@ -15,7 +15,8 @@ LEVEL = "exploration"
 RULE = (
     "Positive: schemas of 2-7 structs/enums (long unique names) whose fields reference earlier "
     "declarations through random container nestings ([T,n], [T], Optional[T], depth <= 4), also "
-    "across 'mod' imports; a post-parse walker checks every Struct/Enum leaf of every accepted tree: "
+    "across 'mod' imports (including two modules with the same file name in different directories, one "
+    "of them imported transitively); a post-parse walker checks every Struct/Enum leaf of every accepted tree: "
     "resolves through get_struct/get_enum/get_type to exactly one declaration of the tagged kind "
     "that precedes the use.  Negative: the same schemas with one declaration removed (undeclared), "
     "moved after its first use (forward), replaced by a self reference, or moved into a module that "
@@ -305,6 +306,65 @@ def one_schema(run, i, tmp):
         shutil.rmtree(d, ignore_errors=True)
 
 
+def same_basename_modules(run, i, tmp):
+    """main imports ca/types.fcp and li/frames.fcp; li/frames.fcp imports li/types.fcp (same file name,
+    other directory).  Every reference of the accepted tree must still resolve."""
+    r = run.rng("samebase", i)
+    used = set()
+
+    def pair(tag):
+        e = long_ident(r, used)
+        st = long_ident(r, used)
+        return [
+            {"kind": "enum", "name": e, "values": [("A" + e, 0), ("B" + e, 3)]},
+            {"kind": "struct", "name": st, "fields": [{"name": "k_" + st.lower(), "id": 0, "type": wrap(r, ("enum", e))}, {"name": "n_" + st.lower(), "id": 1, "type": ("u", 8)}]},
+        ]
+
+    a, b = pair("a"), pair("b")
+    frame = long_ident(r, used)
+    frames = [{"kind": "struct", "name": frame, "fields": [{"name": "p_" + frame.lower(), "id": 0, "type": wrap(r, ("struct", b[1]["name"]))}, {"name": "q_" + frame.lower(), "id": 1, "type": wrap(r, ("enum", b[0]["name"]))}]}]
+    top = long_ident(r, used)
+    rest = [{"kind": "struct", "name": top, "fields": [
+        {"name": "x_" + top.lower(), "id": 0, "type": wrap(r, ("struct", a[1]["name"]))},
+        {"name": "y_" + top.lower(), "id": 1, "type": wrap(r, ("struct", frame))},
+        {"name": "z_" + top.lower(), "id": 2, "type": wrap(r, ("enum", b[0]["name"]))},
+    ]}]
+    d = os.path.join(tmp, "sb%d" % i)
+    os.makedirs(os.path.join(d, "ca"))
+    os.makedirs(os.path.join(d, "li"))
+    files = {
+        "ca/types.fcp": S.print_schema(a),
+        "li/types.fcp": S.print_schema(b),
+        "li/frames.fcp": S.print_schema([{"kind": "mod", "path": ["types"]}] + frames),
+        "main.fcp": S.print_schema([{"kind": "mod", "path": ["ca", "types"]}, {"kind": "mod", "path": ["li", "frames"]}] + rest),
+    }
+    order = r.random() < 0.5
+    if order:
+        files["main.fcp"] = S.print_schema([{"kind": "mod", "path": ["li", "frames"]}, {"kind": "mod", "path": ["ca", "types"]}] + rest)
+    for rel, txt in files.items():
+        open(os.path.join(d, rel), "w").write(txt)
+    case = {"files": files}
+    try:
+        res, lg = PC.parse_file(os.path.join(d, "main.fcp"))
+    except BaseException as e:
+        run.violation("module tree with same-named modules raised %s: %s" % (type(e).__name__, str(e)[:200]), case)
+        return
+    finally:
+        shutil.rmtree(d, ignore_errors=True)
+    if res.is_err():
+        run.violation("module tree with two modules named types.fcp in different directories rejected: %r" % (res.err(),), case)
+        return
+    n = walk_tree(run, res.unwrap(), case)
+    got = sorted(x.name for x in res.unwrap().structs + res.unwrap().enums)
+    want = sorted(x["name"] for x in a + b + frames + rest)
+    if got != want:
+        run.violation("module tree with same-named modules declares %s, the files declare %s" % (got, want), case)
+        return
+    run.count("reference_leaves_walked", n)
+    run.count("same_basename_module_trees")
+    run.case(sig="pos|same-basename-modules|%s" % order)
+
+
 def run(run):
     import fcp.parser as P
 
@@ -315,6 +375,8 @@ def run(run):
         for i in range(n):
             if run.mine(i):
                 one_schema(run, i, tmp)
+                if i % 4 == 1:
+                    same_basename_modules(run, i, tmp)
     finally:
         shutil.rmtree(tmp, ignore_errors=True)
         reach.stop()
@@ -322,7 +384,7 @@ def run(run):
 
 
 def conclude(run):
-    run.require("positive_trees_walked", "reference_leaves_walked", "negative_parsed", "negative_rejected_well", "module_positive", "module_negative")
+    run.require("positive_trees_walked", "reference_leaves_walked", "negative_parsed", "negative_rejected_well", "module_positive", "module_negative", "same_basename_module_trees")
 
 
 def replay(run, case):
